@@ -706,6 +706,14 @@ def propagate_constants(program):
     for m in program.modules.values():
         m.func_of_node = {id(f.node): f for f in m.funcs.values()}
         rewrite(m, None, m.tree)
+        # N22: f(**{"name": v, ...}) with literal identifier keys is f(name=v, ...)  (same binding, same evaluation order
+        # when the splat is the last argument group)
+        for x in ast.walk(m.tree):
+            if isinstance(x, ast.Call) and x.keywords and x.keywords[-1].arg is None and isinstance(x.keywords[-1].value, ast.Dict):
+                d = x.keywords[-1].value
+                if d.keys and all(isinstance(k, ast.Constant) and isinstance(k.value, str) and k.value.isidentifier() for k in d.keys) \
+                        and len({k.value for k in d.keys}) == len(d.keys) and not ({k.value for k in d.keys} & {kw.arg for kw in x.keywords[:-1]}):
+                    x.keywords[-1:] = [ast.copy_location(ast.keyword(arg=k.value, value=v), v) for k, v in zip(d.keys, d.values)]
 
 
 class _N15(ast.NodeTransformer):
